@@ -125,8 +125,15 @@ NAMES = (
     ('@[PA]@/a', (('r', 'PA'), ('c', '/a')), False),
     ('/abs/x', (('c', '<HOME>/x'),), False),  # <HOME>: absolute path of the home directory of the fixture
     ('@[SA]@/x', (('r', 'SA'), ('c', '/x')), False),
+    # two / three slashes after a leading path-symbol reference: still relative to the symbol (NOT an absolute FILE-NAME);
+    # the rest spells the home directory so that an implementation that took it for absolute would be seen writing there
+    ('@[PA]@//HOME/a', (('r', 'PA'), ('c', '/<HOME>/a')), False),
+    ('@[PA]@///HOME/a/b', (('r', 'PA'), ('c', '//<HOME>/a/b')), False),
 )
-N_ABS_FROM = 13  # NAMES[13:] are absolute file names
+ABS_NAMES = (13, 14)  # indices of the absolute file names in NAMES (indices are referred to by known-finding witnesses: append only)
+# sets of indices as (lo, hi, extra indices): lo <= n < hi or n in extras
+K1_PLAIN_NAMES = (0, 13, (15, 16))
+K1_ABS_PART = (11, 15, ())
 RELS = ('',) + tuple('opt:' + k for k in ('cwd', 'home', 'act-home', 'act', 'tmp', 'result')) + (
     'here', 'sym:PA', 'sym:S1', 'sym:NOPE')
 PRELUDE = (
@@ -136,6 +143,21 @@ PRELUDE = (
     ('string', 'SA', (('c', '<HOME>/s'),)),
     ('path', 'PA', ('opt:act', (('c', 'pa'),), False)),
 )
+
+
+def in_names(n, spec) -> bool:
+    lo, hi, extras = spec
+    if lo <= n < hi:
+        return True
+    for e in extras:
+        if n == e:
+            return True
+    return False
+
+
+def names_of(spec):
+    lo, hi, extras = spec
+    return tuple(range(lo, hi)) + tuple(extras)
 
 
 def inst(x, fx):
@@ -177,14 +199,13 @@ def _agree(ref_result, real_result, fx, bug=None) -> bool:
 def _in_abs_region(conf, rel: str, name_idx: int) -> bool:
     """absolute FILE-NAME where the manual does not allow one (RELATIVITY given, or the argument does not accept
     absolute paths): known finding, see region REGION_ABS"""
-    return name_idx >= N_ABS_FROM and (rel != '' or not conf.abs_ok)
+    return name_idx in ABS_NAMES and (rel != '' or not conf.abs_ok)
 
 
 def _pre_k1(r: int, n: int) -> bool:
     from harness import _C12_lib as L
     case = ob.case()
-    lo, hi = case['names']
-    if not (0 <= r < len(RELS) and lo <= n < hi):
+    if not (0 <= r < len(RELS) and in_names(n, case['names'])):
         return False
     if ob.excluded(REGION_ABS) and _in_abs_region(L.CONFS[case['conf']], RELS[r], n):
         return False
@@ -214,14 +235,15 @@ def k1_argument(r: int, n: int) -> bool:
 # ----------------------------------------------------------------------------- K2
 
 ROOTS = ('default', 'cwd', 'home', 'act-home', 'act', 'tmp', 'result', 'abs', 'here')
-LINKS = ('rel', 'ref', 'bare', 'refq', 'rels', 'relsp', 'str', 'str2')
-USES = LINKS + ('plain',)  # how the argument refers to the last symbol; 'plain': not at all (default relativity of the argument)
+LINKS = ('rel', 'ref', 'bare', 'refq', 'rels', 'relsp', 'str', 'str2', 'ref2')
+USES = LINKS + ('plain', 'ref3')  # how the argument refers to the last symbol; 'plain': not at all (default relativity of the argument)
 USE_CONFS = ('file-dst', 'copy-dst', 'copy-src-pre', 'copy-src-post', 'cd-post', 'exists')
 
 
 LINK_TEXT = {'rel': '-rel P x/y', 'ref': '@[P]@/x', 'bare': '@[P]@', 'refq': '"@[P]@/x y"', 'rels': '-rel P @[S]@/x',
              'relsp': '-rel P "x y/@[S]@"', 'str': '@[T]@ with def string T = @[P]@/x',
-             'str2': '@[TT]@ with def string T = @[P]@/x, def string TT = tt/@[T]@', 'plain': 'x/y (no reference)'}
+             'str2': '@[TT]@ with def string T = @[P]@/x, def string TT = tt/@[T]@', 'plain': 'x/y (no reference)',
+             'ref2': '@[P]@//abs-home/x', 'ref3': '@[P]@///abs-home/x/b', 'none': '(no further definition)'}
 
 
 def links_text(kinds) -> str:
@@ -258,6 +280,11 @@ def link(kind: str, prev: str, i: int):
         return [('string', 'T%d' % i, (('r', prev), ('c', '/' + sfx)))], ('', (('r', 'T%d' % i),), False)
     if kind == 'plain':
         return [], ('', (('c', 'p%d/x' % i),), False)
+    if kind == 'ref2':
+        # two slashes after the reference: still relative to the symbol; the rest spells the home directory (see NAMES)
+        return [], ('', (('r', prev), ('c', '/<HOME>/' + sfx)), False)
+    if kind == 'ref3':
+        return [], ('', (('r', prev), ('c', '//<HOME>/' + sfx + '/b')), False)
     if kind == 'str2':
         # ... through two string symbols
         return [('string', 'T%d' % i, (('r', prev), ('c', '/' + sfx))), ('string', 'TT%d' % i, (('c', 'tt/'), ('r', 'T%d' % i)))], \
@@ -345,8 +372,13 @@ K3_NAMES = (
     ('@[PH]@/a', (('r', 'PH'), ('c', '/a')), False),
     ('/abs/x', (('c', '<HOME>/x'),), False),
     ('@[SA]@/x', (('r', 'SA'), ('c', '/x')), False),
+    ('@[PA]@//HOME/a', (('r', 'PA'), ('c', '/<HOME>/a')), False),
+    ('@[PA]@///HOME/a/b', (('r', 'PA'), ('c', '//<HOME>/a/b')), False),
+    ('@[PH]@//HOME/a', (('r', 'PH'), ('c', '/<HOME>/a')), False),
 )
-K3_N_ABS_FROM = 6
+K3_ABS_NAMES = (6, 7)  # append only: indices are referred to by the known-finding witness
+K3_PLAIN_NAMES = (0, 6, (8, 9, 10))
+K3_ABS_PART = (4, 8, ())
 K3_PRELUDE = PRELUDE + (('path', 'PH', ('opt:home', (('c', 'sub'),), False)),)
 
 
@@ -388,10 +420,9 @@ def _whole_program(defs_of, use_of, form: str, phase: str, bug=None, before_defs
 
 def _pre_k3d(r: int, n: int) -> bool:
     case = ob.case()
-    lo, hi = case['names']
-    if not (0 <= r < len(K3_RELS) and lo <= n < hi):
+    if not (0 <= r < len(K3_RELS) and in_names(n, case['names'])):
         return False
-    if ob.excluded(REGION_ABS) and n >= K3_N_ABS_FROM:
+    if ob.excluded(REGION_ABS) and n in K3_ABS_NAMES:
         return False  # no destination argument accepts absolute paths: the whole shape lies in the region
     return True
 
@@ -474,6 +505,7 @@ def k4_unit(root: int, l1: int, l2: int, u: int, at: int) -> bool:
 
         def check(conf_name):
             conf = L.CONFS[conf_name]
+            tcds = L.real_tcds(fx)  # the one directory structure of this (modelled) test case
             os.chdir(d2 if cd_at == 'before-def' else d1)
             # the reference: evaluated in the directory that is current when the value is USED
             at_use = d2 if cd_at in ('before-def', 'between') else d1
@@ -483,13 +515,15 @@ def k4_unit(root: int, l1: int, l2: int, u: int, at: int) -> bool:
             ref_fx.cwd = at_use
             exp = L.ref_program(defs, conf, use, ref_fx)
             got = L.real_program(defs, conf.name, use, fx,
-                                 before_use=(lambda: os.chdir(d2)) if cd_at == 'between' else None)
+                                 before_use=(lambda: os.chdir(d2)) if cd_at == 'between' else None, tcds=tcds)
             ok = _agree(exp, got, ref_fx)
             if cd_at == 'after-use' and ok:
-                # a second use, after the directory has changed again, sees the new directory
+                # a second use of the SAME symbols (same definition objects, same directory structure), after the
+                # directory has changed, sees the new directory
                 os.chdir(d2)
                 ref_fx.cwd = d2
-                ok = _agree(L.ref_program(defs, conf, use, ref_fx), L.real_program(defs, conf.name, use, fx), ref_fx)
+                ok = _agree(L.ref_program(defs, conf, use, ref_fx), L.real_program(defs, conf.name, use, fx, tcds=tcds),
+                            ref_fx)
             return ok
 
         try:
@@ -500,10 +534,51 @@ def k4_unit(root: int, l1: int, l2: int, u: int, at: int) -> bool:
     return ob.post(ok)
 
 
+def _whole_program_twice(defs_of, use_of, form: str, phase: str, cd_lines, tdir: str, bug: bool) -> bool:
+    """[setup] definitions; in `phase`: the destination instruction(s), `dir D`, `cd D`, the SAME destination instruction(s)
+    again.  Both must succeed; the first target lies under act/ (the directory current then), the second under D."""
+    from harness import _C12_lib as L
+    conf = L.CONFS[L.FORM_CONF[form]]
+    verdict = []
+
+    def make_text(fx):
+        defs, use = defs_of(fx), use_of(fx)
+        lines = L.form_lines(form, L.render_expr(use))
+        secs = {'setup': [L.render_def(d) for d in defs]}
+        secs[phase] = list(secs.get(phase, ())) + lines + list(cd_lines) + lines
+        return L.case_text(secs)
+
+    def inspect(run, fx):
+        if fx.sds_root is None:
+            verdict.append(False)
+            return
+        defs, use = defs_of(fx), use_of(fx)
+        fx.cwd = fx.sds_root + '/act'
+        first = L.ref_program(defs, conf, use, fx)[1]
+        fx.cwd = fx.sds_root + '/' + ('act' if bug else tdir)
+        second = L.ref_program(defs, conf, use, fx)[1]
+        if first[0] != 'ok' or second[0] != 'ok':
+            verdict.append(False)
+            return
+        t2 = second[1].value(fx)
+        fx1 = L.Fixture(fx.home, fx.act_home, fx.sds_root, fx.here)
+        fx1.cwd = fx.sds_root + '/act'
+        t1 = first[1].value(fx1)
+        ok = (run.exc is None and run.rc == 0 and run.ident == 'PASS' and not run.case_dir_changed
+              and L.norm(t1).startswith(fx.sds_root + '/'))
+        if ok:
+            rel1 = L.norm(t1)[len(fx.sds_root) + 1:]
+            ok = L.created_as_expected(fx, t2, form, (tdir, rel1)) and L.target_ok(t1, form)
+        verdict.append(ok)
+
+    L.run_cli(make_text, inspect)
+    return verdict[0]
+
+
 CD_TARGETS = ('-rel-act d1', '-rel-tmp d1', 'd1')  # d1 is made by `dir` just before
 CD_TARGET_DIR = {'-rel-act d1': 'act/d1', '-rel-tmp d1': 'tmp/d1', 'd1': 'act/d1'}
 K4_USES = ('rel', 'ref', 'refq', 'bare', 'direct', 'direct-default')
-K4_CD_AT = ('never', 'before-def', 'between')
+K4_CD_AT = ('never', 'before-def', 'between', 'between-uses')
 
 
 def _pre_k4b(root: int, l1: int, u: int, at: int, t: int) -> bool:
@@ -536,20 +611,29 @@ def k4_program(root: int, l1: int, u: int, at: int, t: int) -> bool:
             defs, use_expr = [('string', 'S1', (('c', 's1v'),))], ('opt:cwd', (('c', 'r0/f'),), False)
         elif use == 'direct-default':
             defs, use_expr = [('string', 'S1', (('c', 's1v'),))], ('', (('c', 'r0/f'),), False)
+        elif lk == 'none':
+            defs, use_expr = chain_program(rootk, [], use)  # the destination refers to P0 itself
         else:
             defs, use_expr = chain_program(rootk, [lk], use)
         tdir = CD_TARGET_DIR[target]
         cd_lines = ['dir %s' % target, 'cd %s' % target]
-        if cd_at == 'never':
-            before, after, cwd, extra = [], [], 'act', ()
-        elif cd_at == 'before-def':
-            before, after, cwd, extra = cd_lines, [], tdir, (tdir,)
+        if cd_at == 'between-uses':
+            # the same destination is used, then `cd`, then used AGAIN: the second use lies under the new directory
+            ok = _every(case['phases'], lambda phase: _whole_program_twice(
+                lambda fx: inst(defs, fx), lambda fx: inst(use_expr, fx), case['form'], phase, cd_lines, tdir,
+                bug == 'definition-time'))
         else:
-            before, after, cwd, extra = [], cd_lines, tdir, (tdir,)
-        if bug == 'definition-time' and cd_at == 'between':
-            cwd = 'act'
-        ok = _every(case['phases'], lambda phase: _whole_program(
-            lambda fx: inst(defs, fx), lambda fx: inst(use_expr, fx), case['form'], phase, None, before, after, cwd, extra))
+            if cd_at == 'never':
+                before, after, cwd, extra = [], [], 'act', ()
+            elif cd_at == 'before-def':
+                before, after, cwd, extra = cd_lines, [], tdir, (tdir,)
+            else:
+                before, after, cwd, extra = [], cd_lines, tdir, (tdir,)
+            if bug == 'definition-time' and cd_at == 'between':
+                cwd = 'act'
+            ok = _every(case['phases'], lambda phase: _whole_program(
+                lambda fx: inst(defs, fx), lambda fx: inst(use_expr, fx), case['form'], phase, None, before, after, cwd,
+                extra))
     return ob.post(ok)
 
 
@@ -693,7 +777,7 @@ def k5_read(root: int, l1: int, l2: int, u: int) -> bool:
     return ob.post(ok)
 
 
-MID_LINKS_QUICK = ('rel', 'ref', 'bare', 'str2')
+MID_LINKS_QUICK = ('rel', 'ref', 'bare', 'str2', 'ref2')
 
 
 def obligations(tier: str) -> List[Ob]:
@@ -704,15 +788,15 @@ def obligations(tier: str) -> List[Ob]:
     # ---- K1
     real_unit = REAL_PARSE + REAL_RESOLVE + REAL_SYMBOLS
     for cn in L.CONFS:
-        for part, (lo, hi) in (('names', (0, N_ABS_FROM)), ('absolute', (N_ABS_FROM - 2, len(NAMES)))):
+        for part, idx in (('names', K1_PLAIN_NAMES), ('absolute', K1_ABS_PART)):
             obs.append(Ob(
-                name='K1:%s:%s' % (cn, part), fn='k1_argument', case=dict(conf=cn, names=(lo, hi)), kernel='K1', selector=True,
+                name='K1:%s:%s' % (cn, part), fn='k1_argument', case=dict(conf=cn, names=idx), kernel='K1', selector=True,
                 bound='argument %s x RELATIVITY in %s x FILE-NAME in %s' % (
-                    cn, [r or '(none)' for r in RELS], [x[0] for x in NAMES[lo:hi]]),
+                    cn, [r or '(none)' for r in RELS], [NAMES[i][0] for i in names_of(idx)]),
                 timeout=300, real=real_unit, stubs=(STUB_FIXTURE, STUB_UNTRACED),
                 entry='parse_path.parse_path(tokens, <configuration of the real argument>) -> validate_symbol_usages -> resolve',
                 outside=('FILE-NAMEs with `..` components (the value is root joined with FILE-NAME as written)',)))
-    obs.append(Ob(name='K1:seeded-oracle-error', fn='k1_argument', case=dict(conf='copy-src-pre', names=(1, 3), oracle_bug='kind'),
+    obs.append(Ob(name='K1:seeded-oracle-error', fn='k1_argument', case=dict(conf='copy-src-pre', names=(1, 3, ()), oracle_bug='kind'),
                   kernel='K1', selector=True, bound='seeded: every value is claimed to be relative to the current directory',
                   timeout=120, expect=ob.REFUTE))
     # ---- K2
@@ -738,12 +822,12 @@ def obligations(tier: str) -> List[Ob]:
     stubs_k3 = (STUB_SUBPROCESS, STUB_RESOLVER, STUB_UNTRACED)
     outside_k3 = ('effects outside the sandbox, the directory of the test-case file and the two home directories',)
     for form in L.FORMS:
-        for part, (lo, hi) in (('names', (0, K3_N_ABS_FROM)), ('absolute', (K3_N_ABS_FROM - 2, len(K3_NAMES)))):
+        for part, idx in (('names', K3_PLAIN_NAMES), ('absolute', K3_ABS_PART)):
             obs.append(Ob(
                 name='K3:direct:%s:%s' % (form, part), fn='k3_direct',
-                case=dict(names=(lo, hi), form=form, phases=L.PHASES), kernel='K3', selector=True,
+                case=dict(names=idx, form=form, phases=L.PHASES), kernel='K3', selector=True,
                 bound='%s with destination RELATIVITY in %s x FILE-NAME in %s; in each of %s%s' % (
-                    L.form_lines(form, 'DST'), [r or '(none)' for r in K3_RELS], [x[0] for x in K3_NAMES[lo:hi]], list(L.PHASES),
+                    L.form_lines(form, 'DST'), [r or '(none)' for r in K3_RELS], [K3_NAMES[i][0] for i in names_of(idx)], list(L.PHASES),
                     inner),
                 timeout=600, real=real_k3, stubs=stubs_k3, outside=outside_k3,
                 entry='MainProgram.execute(["--keep", FILE])'))
@@ -751,7 +835,7 @@ def obligations(tier: str) -> List[Ob]:
     for form in L.FORMS:
         k3_chain_cases.append((form, 0, LINKS, USES, L.PHASES))
         if quick:
-            k3_chain_cases.append((form, 1, LINKS, ('rel', 'ref', 'refq', 'rels', 'plain'), ('setup', 'assert')))
+            k3_chain_cases.append((form, 1, LINKS, ('rel', 'ref', 'refq', 'plain', 'ref2'), ('setup', 'assert')))
         else:
             k3_chain_cases.append((form, 1, LINKS, USES, L.PHASES))
             k3_chain_cases.append((form, 2, LINKS, USES, L.PHASES))
@@ -780,7 +864,7 @@ def obligations(tier: str) -> List[Ob]:
             entry='`def` -> validate_symbol_usages -> parse_path -> resolve, os.chdir between the steps'))
     obs.append(Ob(name='K4:unit:seeded-oracle-error', fn='k4_unit', case=dict(depth=1, oracle_bug='definition-time'), kernel='K4',
                   selector=True, bound='seeded: -rel-cd is claimed to be resolved when defined', timeout=300, expect=ob.REFUTE))
-    k4_links = ('rel', 'ref') if quick else ('rel', 'ref', 'bare', 'refq', 'rels', 'relsp')
+    k4_links = ('none', 'rel', 'ref') if quick else ('none', 'rel', 'ref', 'bare', 'refq', 'rels', 'relsp', 'ref2')
     k4_cases = ([('file=', ('setup', 'assert')), ('copy', ('before-assert',)), ('dir', ('cleanup',))] if quick
                 else [(f, L.PHASES) for f in L.FORMS])
     for form, phases in k4_cases:
@@ -788,7 +872,7 @@ def obligations(tier: str) -> List[Ob]:
             name='K4:program:%s' % form, fn='k4_program', case=dict(links=k4_links, form=form, phases=phases),
             kernel='K4', selector=True,
             bound='[setup] P0 = -rel-cd r0 | r0; one further definition in %s; `dir D` + `cd D` (D in %s) before the definitions / '
-                  'after them / not at all; %s with destination as each of %s; in each of %s%s' % (
+                  'after them / between two uses of the same destination / not at all; %s with destination as each of %s; in each of %s%s' % (
                       links_text(k4_links), list(CD_TARGETS), L.form_lines(form, 'DST'), list(K4_USES), list(phases), inner),
             timeout=900, real=real_k3, stubs=stubs_k3, outside=outside_k3, entry='MainProgram.execute(["--keep", FILE])'))
     obs.append(Ob(name='K4:program:seeded-oracle-error', fn='k4_program',
@@ -809,7 +893,7 @@ def obligations(tier: str) -> List[Ob]:
     for form in READ_FORMS:
         k5_cases = [(0, LINKS, USES, L.PHASES)]
         if quick:
-            k5_cases.append((1, LINKS, ('rel', 'ref', 'refq', 'rels', 'plain'), ('setup', 'assert')))
+            k5_cases.append((1, LINKS, ('rel', 'ref', 'refq', 'plain', 'ref2'), ('setup', 'assert')))
         else:
             k5_cases.append((1, LINKS, USES, L.PHASES))
             k5_cases.append((2, MID_LINKS_QUICK, USES, L.PHASES))
